@@ -154,6 +154,13 @@ theorem C10_at_most_once (history : List Seg) (r : Registry) (ds : List (List Se
   simp only [stored, List.flatMap_nil, List.count_nil] at this
   omega
 
+/-- **Nothing fabricated.**  Every PDU handed to the callback is one that arrived. -/
+theorem C10_delivered_arrived (history : List Seg) (r : Registry) (ds : List (List Seg))
+    (h : run [] history = .ok (r, ds)) (x : Seg) (hx : x ∈ ds.flatten) : x ∈ history := by
+  have h1 := C10_at_most_once history r ds h x
+  have h2 : 0 < ds.flatten.count x := List.count_pos_iff.mpr hx
+  exact List.count_pos_iff.mp (by omega)
+
 /-- **Once.**  When the PDUs of the history are pairwise distinct (each arrival is its own PDU: `tag` is its
 position), no PDU is handed to the callback twice — neither within one delivery nor in two. -/
 theorem C10_no_redelivery (history : List Seg) (r : Registry) (ds : List (List Seg))
